@@ -155,7 +155,8 @@ func parseDuration(param lokiapi.PrometheusDuration) (time.Duration, error) {
 	if !strings.ContainsAny(value, "smhdwy") {
 		f, err := strconv.ParseFloat(value, 64)
 		if err == nil {
-			d := f * float64(time.Second)
+			// Round to the nearest nanosecond: product of 1.001 and 1e9 is slightly less than 1001000000.
+			d := math.Round(f * float64(time.Second))
 			return time.Duration(d), nil
 		}
 	}
